@@ -1019,8 +1019,9 @@ def job(j: dict) -> dict:
         for r in plan["recipes"]:
             r["ambient"] = amb
     add_copy_ops(plan, core.rng_for(root, PROP, "copies", idx))
-    if core.derive(root, PROP, "braced", idx) % 5 == 0:
-        R.add_braced(plan["recipes"], idx)
+    bmode = core.derive(root, PROP, "braced", idx) % 10
+    if bmode in (0, 5):
+        R.add_braced(plan["recipes"], idx, family=(bmode == 5))
     ncal = R.resolve_calibration(plan["recipes"], ws.setdefault("calib_cache", {}))
     refs = ws["refcache"].for_plan(plan)
     t0 = time.monotonic()
